@@ -1,6 +1,7 @@
 (* C04 — issued tokens never exceed what was granted or what the client may ask for.
    Statements only; proofs are in Proofs/ScopeProofs.v and Proofs/C04Proofs.v. *)
-From Verif Require Import Base Scope Types Prog Pop Token Authorize System Config ScopeProofs Hoare C04Proofs.
+From Verif Require Import Base Scope Types Prog Pop Token Authorize System Config Run Monitors OneShot ScopeProofs Hoare C04Proofs C04More.
+Local Open Scope N_scope.
 
 (* A requested scope string is allowed for a client iff it is empty or every space-separated
    entry is matched by a server scope whose id is a WHOLE space-delimited entry of the client's
@@ -20,3 +21,48 @@ Theorem issued_within_grant : forall w dyn ops g,
   contains_all_scopes (g_granted g) (g_active g) = true.
 Proof. exact active_within_granted_all_histories. Qed.
 Print Assumptions issued_within_grant.
+
+(* Grants without a resource owner (client_credentials): tokens only to a client registered for the
+   grant type on a server that enabled it; what is granted is exactly what was requested, which the
+   whole-entry rule allows for that client; the grant names the client itself as subject. *)
+Theorem ownerless_within_client : forall w n now r st,
+  is_tokens (snd (run_seq (cc_grant w n now r) st)) = true ->
+  exists c g,
+    snd (run_seq (authenticated w (t_cred r)) st) = Some c /\
+    has_grant GClientCredentials (cf_grants (w_cfg w)) = true /\
+    has_grant GClientCredentials (c_grants c) = true /\
+    are_scopes_allowed (c_scopes c) (cf_scopes (w_cfg w)) (t_scope r) = true /\
+    st_gsess (fst (run_seq (cc_grant w n now r) st)) = put_gsess g (st_gsess st) /\
+    g_granted g = t_scope r /\ g_active g = t_scope r /\ g_client g = c_id c /\ g_subject g = cname (c_id c) /\
+    g_type g = GClientCredentials /\ g_refresh g = 0.
+Proof. exact cc_grant_post. Qed.
+Print Assumptions ownerless_within_client.
+
+(* authorization_code: only to a client registered for the grant type; the grant written carries the
+   subject, client and granted scopes of the session the code indexed (identity is truthful), and the
+   active scopes are the requested subset of the granted ones *)
+Theorem code_grant_within_session : forall w n now r st,
+  is_tokens (snd (run_seq (code_grant w n now r) st)) = true ->
+  exists s c g,
+    find (fun s => ideq (a_code s) (t_code r)) (st_asess st) = Some s /\
+    snd (run_seq (authenticated w (t_cred r)) st) = Some c /\
+    has_grant GAuthorizationCode (cf_grants (w_cfg w)) = true /\
+    has_grant GAuthorizationCode (c_grants c) = true /\
+    contains_all_scopes (a_granted s) (t_scope r) = true /\
+    st_gsess (fst (run_seq (code_grant w n now r) st)) = put_gsess g (st_gsess st) /\
+    g_granted g = a_granted s /\ g_subject g = a_subject s /\ g_client g = a_client s /\ g_code g = a_code s /\
+    g_active g = (if is_empty (t_scope r) then a_granted s else t_scope r).
+Proof. exact code_grant_types. Qed.
+Print Assumptions code_grant_within_session.
+
+(* the authorization endpoint accepts parameters only if the response type is one the client
+   registered, the grant types it implies (code / implicit) are registered for the client, and the
+   requested scopes pass the whole-entry rule *)
+Theorem authorize_types_registered : forall cfg p c,
+  validate_params cfg p c = None ->
+  mem (p_resp_type p) (c_resp_types c) = true /\
+  (rt_contains (p_resp_type p) "code" = true -> has_grant GAuthorizationCode (c_grants c) = true) /\
+  (rt_is_implicit (p_resp_type p) = true -> has_grant GImplicit (c_grants c) = true) /\
+  (is_empty (p_scopes p) = false -> are_scopes_allowed (c_scopes c) (cf_scopes cfg) (p_scopes p) = true).
+Proof. exact validate_params_types. Qed.
+Print Assumptions authorize_types_registered.
